@@ -118,6 +118,13 @@ public:
 
   void rollback();
 
+  /* Start of the parsing of a source text or an interactive statement */
+  void parsingMark();
+
+  /* The text has been rejected: undo all changes made since the mark, so
+   * every replaced declaration is put back and every new one is removed */
+  void parsingRevert();
+
   Entry& getDeclaration(unsigned id)
   {
     return _declarations[id];
@@ -176,6 +183,8 @@ private:
   Context& _root;
   container _declarations;
   FunctorPtr _backed;
+  size_t _mark = 0;
+  std::vector<std::pair<unsigned, FunctorPtr> > _journal; /* replaced since the mark */
 };
 
 }
